@@ -48,14 +48,30 @@ class C11(Prop):
         cfg = gen.GenCfg(n_ranks=rng.choice([1, 2, 3, 4]), n_steps=rng.choice([0, 1, 2]), p_launch=0.6, p_mem=0.3, p_comm=0.3,
                          p_sync=rng.choice([0, 0.1]), streams=rng.choice([(7,), (7, 9)]), max_children=rng.choice([2, 3]),
                          base=rng.choice([0, 1000]), fmt=rng.choice(["json", "json.gz"]))
+        superset = cfg.n_ranks >= 2 and rng.random() < 0.4
+        if superset:
+            # a small first rank whose vocabulary is contained in a later rank's: the job's table then has the SIZE of that rank's own
+            # table but another order
+            cfg.per_rank = {0: {"ops_per_step": (1, 1), "pre_ops": 1, "post_ops": 0, "max_depth": 2, "max_children": 2}}
         case = case_from_cfg(rng, cfg)
         # different vocabularies per rank: rename some operators rank-specifically
         for r in case["ranks"]:
-            if r["rank"] % 2 == 1:
+            if r["rank"] % 2 == 1 and not superset:
                 for e in r["events"]:
                     if e.get("name") == "aten::add":
                         e["name"] = f"aten::add_rank{r['rank']}"
-        if len(case["ranks"]) >= 2 and rng.random() < 0.5:
+        if superset:
+            big = case["ranks"][-1]
+            bycat: Dict[str, List[str]] = {}
+            for e in big["events"]:
+                if hta.is_complete(e) and not e["name"].startswith("ProfilerStep"):
+                    bycat.setdefault(e["cat"], []).append(e["name"])
+            have = {n for ns in bycat.values() for n in ns}
+            for r in case["ranks"][:-1]:
+                for e in r["events"]:
+                    if hta.is_complete(e) and e["name"] not in have and not e["name"].startswith("ProfilerStep") and bycat.get(e["cat"]):
+                        e["name"] = rng.choice(sorted(set(bycat[e["cat"]])))
+        if len(case["ranks"]) >= 2 and not superset and rng.random() < 0.5:
             # very different vocabulary sizes: rank 0 gets > 130 distinct operator names, so later ranks' own symbols get ids >= 128
             r0 = case["ranks"][0]
             hosts = [e for e in r0["events"] if e.get("cat") == "cpu_op"]
